@@ -1699,15 +1699,15 @@ Qed.
 (* failing archives: nothing unpacked / unpacked up to the break, modes not restored / everything
    unpacked but the push fails *)
 Definition os_failing : list pushop :=
-  [PDirF 1 (b "g") [] [EDir (b "g/d") 448%N];
-   PDirF 2 (b "t") [] [EDir (b "t/d") 448%N; EReg (b "t/d/f") 7%N 420%N];
-   PDirF 3 (b "u") [] [EDir (b "u/d") 448%N]].
+  [PDirF 1 (b "g") [] [EDir (b "g/d") 320%N];
+   PDirF 2 (b "t") [] [EDir (b "t/d") 320%N; EReg (b "t/d/f") 7%N 420%N];
+   PDirF 3 (b "u") [] [EDir (b "u/d") 320%N]].
 
 Lemma failing_ok :
   snd (run0 cfg_fixed os_failing) = [false; false; false] /\
   view_at (fst (run0 cfg_fixed os_failing)) [b "r"; b "w"; b "g"] = VDir 493%N 0%N /\
   view_at (fst (run0 cfg_fixed os_failing)) [b "r"; b "w"; b "g"; b "d"] = VNone /\
-  view_at (fst (run0 cfg_fixed os_failing)) [b "r"; b "w"; b "t"; b "d"] = VDir 493%N 0%N /\
+  view_at (fst (run0 cfg_fixed os_failing)) [b "r"; b "w"; b "t"; b "d"] = VDir 448%N 0%N /\
   view_at (fst (run0 cfg_fixed os_failing)) [b "r"; b "w"; b "t"; b "d"; b "f"] = VFile (enc 7 420) 0%N /\
-  view_at (fst (run0 cfg_fixed os_failing)) [b "r"; b "w"; b "u"; b "d"] = VDir 448%N 0%N.
+  view_at (fst (run0 cfg_fixed os_failing)) [b "r"; b "w"; b "u"; b "d"] = VDir 320%N 0%N.
 Proof. vm_compute. repeat split. Qed.
